@@ -52,7 +52,7 @@ impl Writer<'_, [u8]> {
                     return Err(err_msg!(ExceededBuffer));
                 }
                 self.inner
-                    .copy_within((range.end - diff)..self.pos, range.end);
+                    .copy_within(range.end..self.pos, range.end + diff);
                 self.pos += diff;
             }
             _ if ins_len < rem_len => {
@@ -109,9 +109,11 @@ impl ResizeBuffer for Writer<'_, [u8]> {
     }
 
     fn buffer_resize(&mut self, len: usize) -> Result<(), Error> {
-        let len = self.pos + len;
         if len > self.inner.len() {
             return Err(err_msg!(ExceededBuffer));
+        }
+        if len > self.pos {
+            self.inner[self.pos..len].fill(0);
         }
         self.pos = len;
         Ok(())
